@@ -11,6 +11,10 @@
 #define MAX(a, b)	((a) < (b) ? (b) : (a))
 #define LEN(a)		(sizeof(a) / sizeof((a)[0]))
 
+#ifdef NEATVI_VERIF
+int nv_re_depthhit;	/* times re_rec() gave up at NDEPT (verification hook) */
+#endif
+
 /* regular expressions atoms */
 #define RA_CHR		'\0'	/* character literal */
 #define RA_BEG		'^'	/* string start */
@@ -573,6 +577,10 @@ void regfree(regex_t *preg)
 static int re_rec(struct regex *re, struct rstate *rs)
 {
 	struct rinst *ri = NULL;
+#ifdef NEATVI_VERIF
+	if (rs->dep >= NDEPT)
+		nv_re_depthhit++;
+#endif
 	if (rs->dep >= NDEPT)
 		return 1;
 	rs->dep++;
